@@ -11,6 +11,9 @@ R17.3 every "all of"/"any of" summary flag (a named bool given a constant before
 R17.4 wherever FIRST(Y) of a production symbol Y is read as Y's contribution to a set (FIRST of a sequence, FOLLOW of the
       symbol before it), nullable(Y) of the same Y is consulted and tested: whether what stands after Y contributes too
       depends on it
+R17.6 termination evidence for the "repeat until every rule is done" loops of the cost functions: an exit for a round that
+      changed nothing, or all rules on dependency cycles finalised beforehand
+R17.7 rule_max_costs finalises a rule only when none of its productions is incomplete, or the maximum is infinite
 R17.5 in rule_min_costs every "best so far" accumulator is replaced by a candidate only when the candidate is LOWER, in
       rule_max_costs only when it is HIGHER (comparison direction normalised for operand order)
 """
@@ -371,7 +374,120 @@ def r175(facts, res):
     res.floor(R, 'accumulator update tests in the cost functions', n, 4)
 
 
+def cost_fn(facts, res, R, name):
+    bs = [b for b in facts.lib_bodies(['cfgrammar']) if b.path == 'cfgrammar::yacc::grammar::' + name]
+    if len(bs) != 1:
+        res.lost(R, '%s not found' % name)
+        return None
+    return bs[0]
+
+
+def r176(facts, res):
+    """Termination evidence for the "repeat until every rule is done" loops of the cost functions.  Such a loop ends only when a
+    round finds every rule done; a round that changes nothing is followed by an identical one.  Accepted evidence: (E1) the loop
+    also ends when a round changed nothing (a change flag decides an exit), or (E2) every rule on a dependency cycle was
+    finalised before the loop (a pass calling has_path(r, r) and marking r done), so the rest is acyclic and each round
+    finalises at least one rule."""
+    R = 'R17.6'
+    from lrstep import is_call
+    n = 0
+    for name in ('rule_min_costs', 'rule_max_costs'):
+        b = cost_fn(facts, res, R, name)
+        if b is None:
+            continue
+        loops = b.loops()
+        # the outer round loop: the largest loop that contains an `all done` summary flag test deciding its exit
+        flags = [(l, c, ib, hh, inl) for l, c, ib, hh, inl in summary_flags(b) if c == 1 and ib in loops.get(max(loops, key=lambda x: len(loops[x])), ())]
+        rounds = [h for h in loops if not any(h in loops[o] and o != h for o in loops)]
+        rounds = [h for h in rounds if any(ib in loops[h] for _l, _c, ib, _hh, _inl in flags)]
+        if len(rounds) != 1:
+            res.lost(R, 'cannot identify the round loop of %s' % name)
+            continue
+        h = rounds[0]
+        n += 1
+        key = '%s/round-loop' % name
+        # E1: a bool flag initialised false per round (change flag) whose test leaves the loop
+        e1 = any(hh == h for hh, _blocks, _flag, _resets, _assigns in fixpoint_loops(b))
+        # E2: has_path(x, x) before the loop, with a store of `true` into the done vector under it
+        e2 = False
+        for bb, t in b.calls_named('has_path'):
+            if bb in loops[h] or not t['args'] or len(t['args']) < 3:
+                continue
+            r1 = b.op_root(t['args'][1], stop_named=True)[0]
+            r2 = b.op_root(t['args'][2], stop_named=True)[0]
+            if r1 != r2:
+                continue
+            # a const-true store through index_mut reachable from the has_path test before the round loop
+            for x in b.reachable([bb], avoid={h}):
+                for st in b.blocks[x]['stmts']:
+                    if st['k'] == 'assign' and st['lhs']['p'] == ['deref'] and 'use' in st['rv'] and st['rv']['use'].get('const', {}).get('int') == 1 \
+                            and b.lty(st['lhs']['l']).startswith('&mut bool'):
+                        e2 = True
+        if e1:
+            res.ok(R, key, loc_of(b, h), 'the round loop also ends when a round changed nothing')
+        elif e2:
+            res.ok(R, key, loc_of(b, h), 'every rule on a dependency cycle (has_path(r, r)) is finalised before the loop: the rest is acyclic, each round finalises a rule')
+        else:
+            res.bad(R, key, loc_of(b, h), 'no termination evidence: the loop ends only when every rule is done, it has no exit for a round that changed nothing, and rules on '
+                    'dependency cycles are not finalised beforehand - a unit cycle (A: B; B: A | x) repeats the same round forever, an unproductive recursion '
+                    '(B: B x) grows a cost until it overflows', {'function': b.path})
+    res.floor(R, 'round loops of the cost functions', n, 2)
+
+
+def r177(facts, res):
+    """rule_max_costs may declare a rule's maximum final only when none of its productions is still incomplete (the cost of an
+    incomplete production is a lower bound that can still grow), or when the maximum is already infinite."""
+    R = 'R17.7'
+    from lrstep import is_call, has_call, widening_walker, loop_assigned
+    b = cost_fn(facts, res, R, 'rule_max_costs')
+    if b is None:
+        return
+    loops = b.loops()
+    # the store done[i] = true inside a loop
+    stores = []
+    for bb in sorted(b.reachable()):
+        for st in b.blocks[bb]['stmts']:
+            if st['k'] == 'assign' and st['lhs']['p'] == ['deref'] and 'use' in st['rv'] and st['rv']['use'].get('const', {}).get('int') == 1 \
+                    and b.lty(st['lhs']['l']).startswith('&mut bool') and any(bb in loops[h] for h in loops):
+                inl = [h for h in loops if bb in loops[h]]
+                if len(inl) >= 2:       # inside the per-rule loop of the round loop (not the has_path pre-pass)
+                    stores.append(bb)
+    if len(stores) != 1:
+        res.lost(R, 'expected one `done[i] = true` store inside the round loop of rule_max_costs, found %d' % len(stores))
+        return
+    sb = stores[0]
+    h = min((x for x in loops if sb in loops[x]), key=lambda x: len(loops[x]))
+    w = widening_walker(b, facts)
+    w.widen_headers = set(loops) - {h}
+    w.widen_assigned = {x: loop_assigned(b, x) for x in w.widen_headers}
+    ps = [p for p in w.run(h, stop=lambda x: x not in loops[h]) if sb in p.blocks]
+    if not ps or w.overflow:
+        res.lost(R, 'cannot enumerate the paths to the finalising store of rule_max_costs')
+        return
+    accs = {l for l, ty in enumerate(b.locals) if ty['ty'].startswith('core::option::Option<u') and b.name_of(l)}
+    noncmplt = [l for l in accs if 'non' in (b.name_of(l) or '')]
+    bad = None
+    for p in ps:
+        ok = False
+        for c, v in p.conds:
+            if is_call(c, 'is_none') and v == 1 and any(term_has(c, lambda x, l=l: isinstance(x, tuple) and len(x) > 3 and x[0] == 'widen' and x[3] == l) for l in noncmplt):
+                ok = True
+            if c[0] == 'bin' and c[1] == 'Eq' and v == 1 and (c[2] == ('const', 65535) or c[3] == ('const', 65535)):
+                ok = True
+        if not ok:
+            bad = 'a rule\'s maximum is declared final on a path (blocks %s) on which a production of the rule is still incomplete and the maximum is not infinite: the incomplete production\'s cost is only a lower bound' % p.blocks[-8:]
+            break
+    if not noncmplt:
+        res.lost(R, 'cannot identify the accumulator of incomplete productions in rule_max_costs')
+    elif bad:
+        res.bad(R, 'max-final', loc_of(b, sb), bad, {'function': b.path})
+    else:
+        res.ok(R, 'max-final', loc_of(b, sb), 'the maximum is final only when no production is incomplete or it is infinite (%d paths)' % len(ps))
+
+
 def run(facts, res):
+    r176(facts, res)
+    r177(facts, res)
     r175(facts, res)
     r171_172(facts, res)
     r173(facts, res)
